@@ -44,7 +44,7 @@ class RateOfChange(Case):
             return []
         return [(ValueError, "length-mismatch", alg.ne(e.n, e.m))]
 
-    def regions(self, e):
+    def regions(self, e, res=None, k=None):
         return {"short-time-axis": alg.and_(alg.ne(e.n, e.m), alg.or_(alg.eq(e.m, 2), alg.and_(alg.le(e.n, 1), alg.le(e.m, 1))))}
 
     def canary(self, e, res, k):
